@@ -84,7 +84,7 @@ ENTRIES = {
     "heavy_ball_momentum_qg_convex": E(U, "wc_heavy_ball_momentum_qg_convex", "upper", prod(L=[1.0, 2.0], n=[1, 3, 5])),
     "epsilon_subgradient_method": E(U, "wc_epsilon_subgradient_method", "upper",
                                     [dict(M=M_, n=n, gamma=1 / math.sqrt(n + 1), eps=e, R=R) for M_ in (2.0, 1.0) for n in (2, 6) for e in (2.0, 0.1) for R in (1.0,)]),
-    "gradient_descent_silver_stepsize_convex": E(U, "wc_gradient_descent_silver_stepsize_convex", "upper", prod(L=[2.8, 1.0], n=[1, 2])),
+    "gradient_descent_silver_stepsize_convex": E(U, "wc_gradient_descent_silver_stepsize_convex", "upper", prod(L=[2.8, 1.0], n=[1, 2, 3, 5, 7])),
     "gradient_descent_silver_stepsize_strongly_convex": E(U, "wc_gradient_descent_silver_stepsize_strongly_convex", "tight",
                                                           [dict(L=3.2, mu=0.1, n=n) for n in (3, 7)] + [dict(L=1.0, mu=0.05, n=3)]),
     "inexact_accelerated_gradient_exact": E(U, "wc_inexact_accelerated_gradient", "tight", [dict(L=L, epsilon=0, n=n) for L in (3.0, 1.0) for n in (2, 5)], abs_tol=1e-2),
